@@ -85,10 +85,34 @@ func runConcurrentPosts(b core.Batch, em *core.Emitter) {
 					}
 				}(i, cl)
 			}
+			// in every second run the operator reloads the news file (SIGHUP / API reload) again and again meanwhile
+			reloads := 0
+			stopReload := make(chan struct{})
+			reloadDone := make(chan struct{})
+			go func() {
+				defer close(reloadDone)
+				st, ok := srv.S.ThreadedNewsMgr.(*verifshim.ThreadedNewsYAML)
+				if !ok || run%2 == 0 {
+					return
+				}
+				<-start
+				for {
+					select {
+					case <-stopReload:
+						return
+					default:
+					}
+					st.Load()
+					reloads++
+					time.Sleep(200 * time.Microsecond)
+				}
+			}()
 			close(start)
 			wg.Wait()
+			close(stopReload)
+			<-reloadDone
 			srv.Quiesce(refclient.Watchdog)
-			res := core.Result{Case: id, Class: "concurrent-posts", Verdict: core.Held, Obs: map[string]int{"concurrent_posts_acknowledged": len(acked)},
+			res := core.Result{Case: id, Class: "concurrent-posts", Verdict: core.Held, Obs: map[string]int{"concurrent_posts_acknowledged": len(acked), "reloads_during_the_posts": reloads},
 				Sample: map[string]any{"sessions": sessions, "posts_per_session": perSession}}
 			check := func(what string, titles map[string]int, ids int) {
 				for t := range acked {
